@@ -204,12 +204,13 @@ impl<'a> DocSymEmitter<'a> {
             }
             Token::Segment { id, block, .. } => {
                 if let Some(b) = block {
-                    if let Ok(Some(symbol_id)) = self
+                    // (the lock is released before the block is visited: a segment block inside this one takes it again)
+                    let symbol_id = self
                         .codegen
                         .lock()
                         .unwrap()
-                        .evaluate_expression_as_string(id, false)
-                    {
+                        .evaluate_expression_as_string(id, false);
+                    if let Ok(Some(symbol_id)) = symbol_id {
                         // (a segment name is any string; an identifier cannot hold a period)
                         self.emit_document_symbols(
                             &b.inner,
